@@ -31,9 +31,9 @@ META = {
     "property_id": "C19",
     "technique": "Coq proof (JSON print/parse round trip for all values and all states, exposition-format rendering parses back, finite theorems over the metric table translated from format.rs) + byte-exact correspondence of the JSON and HTTP/Prometheus model against serde_json and the real statime-metrics-exporter binary",
     "category": "proof",
-    "text": "Properties/C19.v: table theorems over the metric table regenerated from format.rs on every run (unit in the name = unit of the value, boolean help text = true-as-1 encoding, for every row outside the recorded defect rows; refutations for exactly those rows), json_roundtrip (of_json (parse (print (to_json s))) = Some s for every well-formed state, path trace lists and port lists of any length, integers of any size), render/parse theorems for the exposition format and Content-Length.  Tie: states built with the real statime types -> serde_json::to_vec bytes == model bytes; same bytes served to the real exporter binary; HTTP response == model's render byte for byte; oracle ok_C19 evaluated on the implementation's bytes.",
+    "text": "Properties/C19.v: table theorems over the metric table regenerated from format.rs on every run (unit in the name = unit of the value, boolean help text = true-as-1 encoding, for EVERY row, no exemption), json_roundtrip (of_json (parse (print (to_json s))) = Some s for every well-formed state, path trace lists and port lists of any length, integers of any size), render/parse theorems for the exposition format and Content-Length.  Tie: states built with the real statime types -> serde_json::to_vec bytes == model bytes; same bytes served to the real exporter binary; HTTP response == model's render byte for byte; oracle ok_C19 evaluated on the implementation's bytes.",
     "design_ref": "DESIGN.md section 6 (C19), section 7 (F10, F11)",
-    "level_note": "Trusted: Coq 8.16.1 kernel + vm_compute (+ primitive 63-bit integers, used only to transport bytes into case files); translate/gen_metric_table.py and the hand-written classification Obs/MetricSpec.v; hand-written models Obs/Json.v, Obs/Prom.v (validated byte for byte by this run's correspondence); f64 Display / serde_json float printing and parsing are NOT modelled (decimal tokens are supplied by the implementation and compared as strings; the oracle reads them as exact rationals); serde, serde_json, tokio, harness, drivers. The snapshot getters (instance state -> observable data sets) are covered by the port/instance correspondences, not here. F10, F11 and the one-ulp uptime change are recorded known findings (kf 1, 2, 4).",
+    "level_note": "Trusted: Coq 8.16.1 kernel + vm_compute (+ primitive 63-bit integers, used only to transport bytes into case files); translate/gen_metric_table.py and the hand-written classification Obs/MetricSpec.v; hand-written models Obs/Json.v, Obs/Prom.v (validated byte for byte by this run's correspondence); f64 Display / serde_json float printing and parsing are NOT modelled (decimal tokens are supplied by the implementation and compared as strings; the oracle reads them as exact rationals); serde, serde_json, tokio, harness, drivers. The snapshot getters (instance state -> observable data sets) are covered by the port/instance correspondences, not here. F10, F11, the one-ulp uptime change and the 16 KiB single read are repaired (fef2df5, 906e592, 84ad86f, 04bf296); no known finding is excused.",
 }
 
 
@@ -54,13 +54,14 @@ class S(Spec):
     assumptions = [
         "strings in the state (version, commit, date) are free of double quotes and backslashes (the JSON model has no escapes)",
         "ClockAccuracy::ProfileSpecific(v) / TimeSource::ProfileSpecific(v) only with values reachable from the wire (0x80+v, 0xf0+v fit u8)",
-        "the observation message fits the exporter's single 16 KiB read (read_json reads once); larger states (about 40 ports) are answered with 500",
+        "the daemon closes the observation connection after one message (read_json reads to EOF)",
         "snapshot getters (live data sets -> observable data sets) are not part of this check",
     ]
     rule = ("case i of seed s: role by i mod 3 (grandmaster / slave / boundary clock), time-properties combination and port-state rotation by i div 3, "
             "delay mechanism by (i + port) mod 5, path trace length from {0,1,2,8,127,128,random}, offsets/delays from a lattice "
             "(0, 1 bit, 1 ns, 1.5 us, 1 ms, 1 s, 2^63 +-1, 2^64+, 10 s, uniform) with both signs, uptimes incl. exponent notation and 17-digit values; "
-            "a class is (role, ulp flag, ports, path length class, offset sign/size, time-property bits, port states); all classes are non-trivial")
+            "big boundary clocks (52-71 ports, JSON > 16 KiB) are a family of their own; every third state and every large one reaches the exporter in several chunks; "
+            "a class is (role, size flag, ports, path length class, offset sign/size, time-property bits, port states, delivery); all classes are non-trivial")
     level = "proof"
 
 
@@ -72,7 +73,6 @@ def translate():
     gen_metric_table.main()
 
 
-KF_BITS = (1, 2, 4, 8)
 
 
 def drive_cases(lines, binary):
@@ -82,12 +82,14 @@ def drive_cases(lines, binary):
         for (i, cls, term) in lines:
             st, ft, hx = term.split(" @@ ")
             js = binascii.unhexlify(hx)
-            exp.obs.set_mode("valid", js)
+            # every third state and every large one is delivered in several chunks
+            chunked = (i % 3 == 1) or len(js) > 16384
+            exp.obs.set_mode("chunked" if chunked else "valid", js)
             r = D.http_get(exp, 5.0)
             if exp.exit_code() is not None:
                 raise RuntimeError("exporter exited (status %s) while serving case %d: %s" % (exp.exit_code(), i, exp.stderr_tail()))
             tag = str(r[1]) if r[0] == "status" else r[0]
-            cases.append((i, "%s:%s" % (cls, tag), "(%s, %s, %s, %s)" % (st, ft, pack(js), pack(r[2]))))
+            cases.append((i, "%s:%s%s" % (cls, tag, ":chunked" if chunked else ""), "(%s, %s, %s, %s)" % (st, ft, pack(js), pack(r[2]))))
     return cases
 
 
@@ -117,7 +119,7 @@ def run(tier, seed, replay=None):
         ok_proof, out_proof = vlib.coq_make([prop_vo])
         if not ok_proof:
             ctx.problems.append("proof obligations of %s do not check: %s" % (spec.prop_file, vlib.tail_err(out_proof)))
-        okb, outb = vlib.cargo_build("debug", ["c19"])
+        okb, outb = vlib.cargo_build("debug", ["c19", "c19ulp"])
         if not okb:
             ctx.problems.append("harness build failed: " + outb[-1500:])
             vlib.write_fail(ctx, "harness-build", "The harness no longer builds against /repo:\n" + outb[-4000:])
@@ -196,21 +198,32 @@ def run(tier, seed, replay=None):
         vlib.write_fail(ctx, "driver", repr(ex))
         return vlib.finish(ctx)
 
+    # the only f64 of the state must survive serde_json's print -> parse exactly (float_roundtrip)
+    rcu, outu = vlib.run_bin("debug", "c19ulp", ["--seed", seed, "--count", 200000 if tier == "quick" else 5000000])
+    mu = re.match(r"\s*(\d+) (\d+)", outu.strip().split("\n")[-1]) if rcu == 0 else None
+    if not mu:
+        ctx.problems.append("c19ulp failed: " + outu[-300:])
+    else:
+        ctx.cov["uptime_json_hop"] = "%s of %s nanosecond-resolution uptimes changed" % (mu.group(1), mu.group(2))
+        if int(mu.group(1)) != 0:
+            path = vlib.write_replay(prop, "uptime-hop", {
+                "property": prop, "what": "an f64 uptime does not survive serde_json::to_string -> from_str unchanged",
+                "detail": outu.strip()[-300:], "how_to_replay": "harness binary c19ulp --seed %d --count 200000" % seed})
+            ctx.violations.append((path, ""))
+
     mm, bad, err = vlib.eval_cases(prop, spec.case_module, cases, shard=25, tag="drv")
     if err:
         ctx.problems.append("case evaluation failed: " + err)
         mm, bad = [], []
     for (c, kf) in bad:
-        bits = [b for b in KF_BITS if kf & b]
-        if kf != 0 and sum(bits) == kf and all(b in kfs for b in bits):
-            for b in bits:
-                line = "KNOWN-FINDING: property=%s kf=%d %s" % (prop, b, kfs[b])
-                if line not in ctx.known_lines:
-                    ctx.known_lines.append(line)
+        if kf != 0 and kf in kfs:          # no known finding is registered for C19 any more
+            line = "KNOWN-FINDING: property=%s kf=%d %s" % (prop, kf, kfs[kf])
+            if line not in ctx.known_lines:
+                ctx.known_lines.append(line)
             continue
         if len(ctx.violations) < 5:
             path = vlib.write_replay(prop, "c19-debug-%d" % c[0], {
-                "property": prop, "bin": "c19", "profile": "debug", "seed": seed, "index": c[0], "class": c[1], "kf_mask": kf,
+                "property": prop, "bin": "c19", "profile": "debug", "seed": seed, "index": c[0], "class": c[1],
                 "case": c[2][:6000],
                 "what": "the bytes produced by the implementation (serde_json::to_vec of the state / HTTP response of the real exporter) are rejected by the property oracle ok_C19 evaluated in Coq",
                 "how_to_replay": "./check C19 --replay <this file>"})
